@@ -319,7 +319,7 @@ theorem inv_storeBlob {s : St} (h : Inv s) (oid n base : Nat) (check : Bool) :
           simp only
           have key := inv_update h hn (aset s.files (oid, t.tid) b) ((oid, t.tid) :: s.dirty)
             { t with staged := { oid := oid, tid := t.tid, kind := .blob, val := 0,
-                                 src := t.tid } :: t.staged } rfl ?_ ?_ ?_ ?_ ?_ ?_ ?_ ?_
+                                 src := t.tid, back := 0 } :: t.staged } rfl ?_ ?_ ?_ ?_ ?_ ?_ ?_ ?_
           · exact key.congr rfl rfl rfl rfl rfl
           · intro r hr
             rcases List.mem_cons.1 hr with hr | hr
